@@ -318,7 +318,7 @@ struct TrustSim {
 				K.fail("C04", "contradiction-not-reported", "PUB", "user-publication verification against a contradicting publication (honest extender) gave rc=%d ec=0x%x instead of FAIL", rc, ec);
 		}
 		// vacuity guard: everything honest and bound => OK
-		if (bound && e.behav == B_HONEST && !bw.fault_fired && fk == F_HONEST && res == KSI_OK && rc != KSI_VER_RES_OK) {
+		if (bound && e.behav == B_HONEST && !bw.fault_fired && !bw.fault_ambiguous && fk == F_HONEST && res == KSI_OK && rc != KSI_VER_RES_OK) {
 			bool expect = (policy == 0) || (policy == 1 && (s.kind == S_PUB_IN_FILE || (ext_allowed && s.agg <= P2))) || (policy == 2 && d_user && (has_pubrec ? s.pub == up_time : true)) || policy == 3;
 			if (policy == 2 && has_pubrec && s.pub != up_time) expect = false; // a signature that carries another publication is not re-extended
 			if (policy == 1 && has_pubrec && s.kind != S_PUB_IN_FILE) expect = false;
